@@ -20,11 +20,7 @@ func Abs(ctx context.Context, args ...object.Object) object.Object {
 		}
 		return object.NewInt(v)
 	case *object.Float:
-		v := arg.Value()
-		if v < 0 {
-			v *= -1
-		}
-		return object.NewFloat(v)
+		return object.NewFloat(math.Abs(arg.Value()))
 	default:
 		return object.TypeErrorf("type error: argument to math.abs not supported, got=%s", args[0].Type())
 	}
